@@ -1129,12 +1129,17 @@ func (m *Monitors) repoLayout(h *H, dir, name string) {
 	nBlobs := 0
 	algs, _ := os.ReadDir(filepath.Join(dir, "blobs"))
 	for _, a := range algs {
-		if !a.IsDir() {
+		if !a.IsDir() || !digest.Algorithm(a.Name()).Available() {
+			m.flag(h, "C10.layout-shape", fmt.Sprintf("%s: blobs/%s is not an algorithm directory", name, a.Name()))
 			continue
 		}
 		es, _ := os.ReadDir(filepath.Join(dir, "blobs", a.Name()))
 		for _, e := range es {
 			nBlobs++
+			if !e.Type().IsRegular() {
+				m.flag(h, "C10.layout-shape", fmt.Sprintf("%s: blobs/%s/%s is not a regular file", name, a.Name(), e.Name()[:min(12, len(e.Name()))]))
+				continue
+			}
 			b, err := os.ReadFile(filepath.Join(dir, "blobs", a.Name(), e.Name()))
 			if err != nil {
 				continue
@@ -1653,6 +1658,24 @@ func (m *Monitors) generic(h *H, line, out string) {
 					m.flag(h, "C15.routes-grammar", fmt.Sprintf("raw %s %s with the invalid repository name %q was routed: %s", t[1], t[2], name, out))
 				}
 				break
+			}
+		}
+	}
+	// a switched-off or read-only registry acknowledges no change (C14; C19: each switch has its effect)
+	if st, err := strconv.Atoi(strings.SplitN(out, " ", 2)[0]); err == nil && st < 400 {
+		ro, push, del, bdel := *h.conf.Storage.ReadOnly, *h.conf.API.PushEnabled, *h.conf.API.DeleteEnabled, *h.conf.API.Blob.DeleteEnabled
+		switch t[0] {
+		case "UPOST", "UPATCH", "UPUT", "MPUT":
+			if ro || !push {
+				m.flag(h, "C14.disabled-accepted", fmt.Sprintf("%s answered %d although pushing is disabled (ro=%v push=%v)", t[0], st, ro, push))
+			}
+		case "MDEL":
+			if ro || !del {
+				m.flag(h, "C14.disabled-accepted", fmt.Sprintf("MDEL answered %d although deleting is disabled (ro=%v del=%v)", st, ro, del))
+			}
+		case "BDEL":
+			if ro || !del || !bdel {
+				m.flag(h, "C14.disabled-accepted", fmt.Sprintf("BDEL answered %d although blob deleting is disabled (ro=%v del=%v bdel=%v)", st, ro, del, bdel))
 			}
 		}
 	}
